@@ -301,6 +301,27 @@ fn ctx_accepts<B: StarkField>(spec: &Spec, opts: &ProofOptions) -> Option<usize>
     })).ok()
 }
 
+
+/// Reference admissibility of the family member's shape, written from the documented rules (mirror of Shape.ctx_model in
+/// coq/Model/Stark.v), independent of the library: used to notice a library that starts REJECTING parameter sets of the
+/// supported class (the falsifier would otherwise skip them silently).
+fn ref_ctx_accepts(s: &Spec, blowup: usize) -> bool {
+    let n = s.n() as u128;
+    let pow2 = |x: u128| x > 0 && x & (x - 1) == 0;
+    let degs: Vec<(u128, Vec<u128>)> = (0..s.width).map(|c| if s.hold[c] || s.rot_of(c) > 0 { (1, vec![]) } else { match s.per_index(c) {
+        Some(i) => (s.degs[c] as u128, vec![s.periodic[i] as u128]), None => (s.degs[c] as u128, vec![]) } })
+        .chain((0..s.aux_width).map(|j| (if j == 0 { 2 } else { 1 }, vec![]))).collect();
+    if degs.iter().any(|(b, cyc)| *b == 0 || cyc.iter().any(|&c| c < 2 || !pow2(c))) { return false; }
+    if n < 8 || !pow2(n) || s.width == 0 || s.width + s.aux_width > 255 || (s.aux_width == 0 && s.aux_rands != 0) || s.aux_rands > 255 { return false; }
+    if s.assertions.is_empty() { return false; }
+    let min_blowup = |b: u128, k: u128| (b + k - 1).next_power_of_two().max(2);
+    let ce = degs.iter().map(|(b, cyc)| min_blowup(*b, cyc.len() as u128)).max().unwrap_or(0);
+    if (blowup as u128) < ce { return false; }
+    let e = s.exemptions as u128;
+    if e == 0 || e > n / 2 + 1 { return false; }
+    degs.iter().all(|(b, cyc)| { let ed = b * (n - 1) + cyc.iter().map(|c| (n / c) * (c - 1)).sum::<u128>(); e + ed <= ce * n - 1 + n })
+}
+
 /// admissible in the sense of the property: constructors accept, FRI schedule well-formed, fewer queries than LDE points,
 /// extension supported by the field
 fn admissible(c: &Case) -> bool {
@@ -397,7 +418,23 @@ fn shrink(c: &Case, out: &str, budget: &mut usize) -> (Case, String) {
 struct Tally { evals: usize, fails: usize, skipped: usize, classes: Vec<String>, strata: std::collections::BTreeMap<String, usize> }
 
 fn check(c: &Case, t: &mut Tally, stratum: &str) {
-    if !admissible(c) { t.skipped += 1; *t.strata.entry(format!("SKIPPED:{}", stratum)).or_insert(0) += 1; return; }
+    if !admissible(c) {
+        // the library's constructors and the reference rules must agree on what is admissible
+        if c.lag == 0 && spec_wellformed(&c.spec) && c.spec.log_n >= 3 && c.spec.log_n <= 20 {
+            if let Some(o) = make_opts(&c.opts) {
+                let (lib, reference) = (ctx_accepts::<f64::BaseElement>(&c.spec, &o).is_some(), ref_ctx_accepts(&c.spec, c.opts.blowup));
+                if lib != reference {
+                    t.evals += 1; t.fails += 1;
+                    println!("{{\"what\":\"completeness:constructors-disagree-with-reference-admissibility\",\"input\":{},\"expected\":\"accepted = {}\",\"actual\":\"accepted = {}\",\"stratum\":{}}}", case_json(c), reference, lib, jstr(stratum));
+                }
+            }
+        }
+        t.skipped += 1; *t.strata.entry(format!("SKIPPED:{}", stratum)).or_insert(0) += 1; return;
+    }
+    if c.lag == 0 && !ref_ctx_accepts(&c.spec, c.opts.blowup) {
+        t.evals += 1; t.fails += 1;
+        println!("{{\"what\":\"completeness:constructors-disagree-with-reference-admissibility\",\"input\":{},\"expected\":\"accepted = false\",\"actual\":\"accepted = true\",\"stratum\":{}}}", case_json(c), jstr(stratum));
+    }
     let out = run_case(c);
     t.evals += 1;
     *t.strata.entry(stratum.to_string()).or_insert(0) += 1;
